@@ -94,6 +94,10 @@ func IsAEAD(name string) bool {
 func KnownCipher(name string) bool { _, ok := ciphers[name]; return ok }
 func KnownMAC(name string) bool    { _, ok := macs[name]; return ok }
 
+// BlockSize is max(8, cipher block size), the alignment RFC 4253 section 6
+// prescribes for the named cipher.
+func BlockSize(name string) int { return max(8, ciphers[name].block) }
+
 const maxPacketLen = 256*1024 + 512 // upper bound for a packet_length field: the largest payload the properties name (256 KiB) plus padding
 
 type dirState struct {
@@ -109,6 +113,7 @@ type dirState struct {
 	macKey              []byte
 	stream              cipher.Stream
 	cbc                 cipher.BlockMode
+	cbcEnc              cipher.BlockMode // same key and IV, encrypting (Seal)
 	gcm                 cipher.AEAD
 	gcmIV               [12]byte
 	chachaKey           []byte
@@ -653,7 +658,7 @@ func (m *Monitor) newKeys(dir int) {
 	key := derive(r, m.sessionID, byte('C'+dir), spec.keyLen)
 	d.cipherName, d.macName = cn, ""
 	d.spec = spec
-	d.stream, d.cbc, d.gcm, d.mac, d.chachaKey, d.head = nil, nil, nil, nil, nil, nil
+	d.stream, d.cbc, d.cbcEnc, d.gcm, d.mac, d.chachaKey, d.head = nil, nil, nil, nil, nil, nil, nil
 	switch spec.kind {
 	case "ctr":
 		b, _ := aes.NewCipher(key)
@@ -661,9 +666,11 @@ func (m *Monitor) newKeys(dir int) {
 	case "cbc":
 		b, _ := aes.NewCipher(key)
 		d.cbc = cipher.NewCBCDecrypter(b, iv)
+		d.cbcEnc = cipher.NewCBCEncrypter(b, iv)
 	case "3des":
 		b, _ := des.NewTripleDESCipher(key)
 		d.cbc = cipher.NewCBCDecrypter(b, iv)
+		d.cbcEnc = cipher.NewCBCEncrypter(b, iv)
 	case "rc4":
 		c, _ := rc4.NewCipher(key)
 		if spec.discard > 0 {
